@@ -316,6 +316,21 @@ class C15(Property):
             c = rng.choice(BOUNDARY) if rng.random() < 0.5 else \
                 rng.randrange(MAXCP)
             jobs.append((segs, cls, p, c, mode))
+        # faults aimed at the white space right after a dash-continued line
+        # end, with code points that Python counts as space but the
+        # grammars do not
+        for cls0, a, b in spans:
+            if cls0 == "quoted" and "-\n" in text0[a:b].replace("\r", ""):
+                k = text0.index("-", a) + 1
+                while k < b and text0[k] in "\r\n":
+                    k += 1
+                for _ in range(2):
+                    c = rng.choice([0x1c, 0x1d, 0x1e, 0x1f, 0x85, 0xa0,
+                                    0x2028, 0x2029, 0x3000, 0x2003, 0x1680])
+                    jobs.append((segs, "quoted", min(b - 2, k + rng.choice(
+                        [0, 1, 2])), c, rng.choice(["insert", "replace"])))
+                out.inc("probe.fault-after-dash-continuation")
+                break
         if tier == "thorough":
             tsegs = tiny_label(rng)
             t0, tspans = layout(tsegs)
